@@ -23,7 +23,7 @@ pub fn plan() -> Plan {
         meta: Meta {
             property: "C14",
             level: "fault_enumeration",
-            rule: "for every operation kind (write small / two-buffer / >80 KiB, write_with, write that must create the active blob, delete always / only-if-presented into the active blob, into a closed on-disk-indexed blob, delete that must create the active blob, read, read_all, contains, try_close / try_create / try_restore_active_blob, force_update, fsyncdata, free_excess_resources, offload_buffer, Storage::close) x runtime flavour {multi-thread, current-thread} x active blob {fresh, reopened} x k = 1,2,.. : the operation's future is polled under a counting waker (re-polled only when woken) and dropped at its k-th Pending, for every k until it completes. Continuation A waits until the H1 in-flight I/O counter is 0; continuation B immediately issues the next write while the detached blocking closure of the cancelled operation is delayed by an H1 failpoint. Oracle: the model with the cancelled operation as 'maybe': the whole query surface must equal either 'applied' or 'not applied' as a whole, and may change from not-applied to applied only at a restart; all other acknowledged data reads back; 10 further random operations succeed and agree with the model; after close + reopen (index kept, then index removed) the surface still matches, every blob file parses completely with the independent parser (contiguous records, valid checksums, blob_offset == position) and corrupted_blobs_count is 0. Non-trivial = a case in which the future was actually dropped at a suspension point; distinct = (kind, flavour, blob state, k, continuation).",
+            rule: "for every operation kind (write small / two-buffer / >80 KiB, write_with, write that must create the active blob, delete always / only-if-presented into the active blob, into a closed on-disk-indexed blob, delete that must create the active blob, read, read_all, contains, try_close / try_create / try_restore_active_blob, force_update, fsyncdata, free_excess_resources, offload_buffer, Storage::close) x runtime flavour {multi-thread, current-thread} x active blob {fresh, reopened} x k = 1,2,.. : the operation's future is polled under a counting waker (re-polled only when woken) and dropped at its k-th Pending, for every k until it completes. Continuation A waits until the H1 in-flight I/O counter is 0; continuation B immediately issues the next write while the detached blocking closure of the cancelled operation is delayed by an H1 failpoint. Oracle: the model with the cancelled operation as 'maybe': the whole query surface must equal either 'applied' or 'not applied' as a whole, and may change from not-applied to applied only at a restart; all other acknowledged data reads back; 10 further random operations succeed and agree with the model; after close + reopen (index kept, then index removed) the surface still matches, every blob file parses completely with the independent parser (contiguous records, valid checksums, blob_offset == position) and corrupted_blobs_count is 0. Plus 'cancel, then close at once': an operation that must create the active blob is dropped while the new blob's header write is held by a failpoint, close() is called immediately and an image of the directory taken when it returns must contain no blob file without a header and must open without quarantining anything. Non-trivial = a case in which the future was actually dropped at a suspension point; distinct = (kind, flavour, blob state, k, continuation).",
             assumptions: vec!["suspension points are those the runtime actually produces on this machine for the given flavour", "verdict holds for the cases enumerated"],
         },
         shards: 16,
@@ -71,6 +71,70 @@ async fn poll_then_drop<F: Future>(fut: F, k: usize) -> Polled<F::Output> {
             }
         }
     }
+}
+
+fn copy_dir(from: &std::path::Path, to: &std::path::Path) {
+    let _ = std::fs::create_dir_all(to);
+    if let Ok(rd) = std::fs::read_dir(from) {
+        for e in rd.flatten() {
+            let p = e.path();
+            if p.is_file() {
+                let _ = std::fs::copy(&p, to.join(e.file_name()));
+            } else if p.is_dir() {
+                copy_dir(&p, &to.join(e.file_name()));
+            }
+        }
+    }
+}
+
+/// Cancel, then shut down at once: an operation that has to create the active blob is dropped at its k-th suspension
+/// point while the header write of the new blob file is held by a failpoint; `close()` is called immediately and an
+/// image of the directory is taken the moment it returns (the state a process exit right after close() leaves).
+/// Every blob file of the image must parse: the image is opened and must not quarantine anything.
+async fn cancel_then_close(dir: std::path::PathBuf, image: std::path::PathBuf, cfg: Cfg, which: u8, k: usize, delay_ms: u64) -> Result<bool, (String, String)> {
+    use pearl::{ArrayKey, Storage};
+    let mut s: Storage<ArrayKey<8>> = crate::drive::builder_for(&cfg, &dir).build().map_err(|e| ("cancel-close/build".to_string(), format!("{:#}", e)))?;
+    s.init().await.map_err(|e| ("cancel-close/init".to_string(), format!("{:#}", e)))?;
+    let key = ArrayKey::<8>::from(crate::drive::key_bytes(cfg.key_salt, 1, 8));
+    s.write(&key, Bytes::from(value_bytes(77, 20)), BlobRecordTimestamp::new(1)).await.map_err(|e| ("cancel-close/write".to_string(), format!("{:#}", e)))?;
+    s.try_close_active_blob().await.map_err(|e| ("cancel-close/close-active".to_string(), format!("{:#}", e)))?;
+    s.verif_barrier(true).await;
+    tap::arm(&dir, false, false);
+    tap::set_faults(&dir, vec![tap::Fault { kinds: vec![tap::Kind::Write], suffix: ".blob".into(), nth: 0, sticky: false, action: tap::Action::Delay(delay_ms) }]);
+    let dropped = {
+        let sref = &s;
+        let polled = match which {
+            0 => poll_then_drop(async { sref.write(&key, Bytes::from(value_bytes(78, 20)), BlobRecordTimestamp::new(2)).await.map(|_| ()).map_err(|e| format!("{:#}", e)) }, k).await,
+            1 => poll_then_drop(async { sref.delete(&key, BlobRecordTimestamp::new(2), false).await.map(|_| ()).map_err(|e| format!("{:#}", e)) }, k).await,
+            _ => poll_then_drop(async { sref.try_create_active_blob().await.map_err(|e| format!("{:#}", e)) }, k).await,
+        };
+        matches!(polled, Polled::Dropped)
+    };
+    let r = s.close().await;
+    copy_dir(&dir, &image);
+    // let the detached remainder finish before the directories are removed
+    for _ in 0..200 {
+        if tap::inflight() == 0 {
+            break;
+        }
+        tokio::time::sleep(Duration::from_millis(5)).await;
+    }
+    let _ = tap::disarm(&dir);
+    r.map_err(|e| ("cancel-close/close-failed".to_string(), format!("{:#}", e)))?;
+    for id in crate::drive::dir_ids(&image) {
+        let len = std::fs::metadata(image.join(format!("t.{}.blob", id))).map(|m| m.len()).unwrap_or(0);
+        if len < 20 {
+            return Err(("cancel-then-close/blob-without-header-after-close".into(), format!("the operation was dropped at suspension point {} (blob header write held for {} ms) and close() was called at once: when close() returned, t.{}.blob had {} bytes - a process exit now leaves a blob that the next start quarantines as corrupted", k, delay_ms, id, len)));
+        }
+    }
+    let mut s2: Storage<ArrayKey<8>> = crate::drive::builder_for(&cfg, &image).build().map_err(|e| ("cancel-close/build".to_string(), format!("{:#}", e)))?;
+    s2.init().await.map_err(|e| ("cancel-then-close/init-failed-on-image".to_string(), format!("{:#}", e)))?;
+    let corrupted = s2.corrupted_blobs_count();
+    let _ = s2.close().await;
+    if corrupted > 0 {
+        return Err(("cancel-then-close/blob-quarantined".into(), format!("image taken when close() returned: {} blob(s) quarantined at the next start", corrupted)));
+    }
+    Ok(dropped)
 }
 
 #[derive(Clone, Copy, Debug, PartialEq, Eq)]
@@ -642,6 +706,29 @@ pub fn shard(ctx: &Ctx) -> Shard {
                     break;
                 }
                 k += 1;
+            }
+        }
+        // cancel-then-close scenario, once per round and shard
+        {
+            let mut cfg = Cfg::default_for(4, 1);
+            cfg.mt = round % 2 == 0;
+            cfg.key_salt = rng.next();
+            let (which, k, delay) = ((rng.below(3)) as u8, rng.range(1, 3) as usize, rng.range(15, 40));
+            let (dir, image) = (new_dir("c14c-"), new_dir("c14ci-"));
+            let r = block_on_catch(cfg.mt, cancel_then_close(dir.clone(), image.clone(), cfg.clone(), which, k, delay));
+            rm_dir(&dir);
+            rm_dir(&image);
+            sh.evaluations += 1;
+            let replay = json!({"check": "c14-cancel-then-close", "cfg": cfg.to_json(), "which": which, "k": k, "delay_ms": delay});
+            match r {
+                Ok(Ok(dropped)) => {
+                    sh.add("cancel_then_close_scenarios", 1);
+                    if dropped {
+                        sh.add("cancel_then_close_dropped", 1);
+                    }
+                }
+                Ok(Err((sig, detail))) => sh.violation(&ctx.known, "C14", ctx.seed, &format!("C14/{}", sig), &detail, replay),
+                Err(p) => sh.violation(&ctx.known, "C14", ctx.seed, "C14/cancel-then-close/panic", &p.chars().take(120).collect::<String>(), replay),
             }
         }
         round += 1;
